@@ -248,3 +248,4 @@ m("c01-f15-revert", "C01", "daemon/runners/asyncio_runner.py", "            if i
 m("c04-f17-revert", "C04", "interfaces/_partial.py", "def __init__(self, ctor: Type[C_co], /, *args, __leaf__, **kwargs):", "def __init__(self, ctor: Type[C_co], *args, __leaf__, **kwargs):")
 m("c10-f18-revert", "C10", "daemon/runners/service.py", "def execute(self, payload, /, *args, flavour: ModuleType, **kwargs):", "def execute(self, payload, *args, flavour: ModuleType, **kwargs):")
 m("c03-f18-revert", "C03", "daemon/runners/service.py", "def adopt(self, payload, /, *args, flavour: ModuleType, **kwargs):", "def adopt(self, payload, *args, flavour: ModuleType, **kwargs):")
+m("c04-f19-revert", "C04", "daemon/runners/service.py", "        while hasattr(constructor, \"__service_flavour__\"):", "        while False:")
